@@ -269,9 +269,12 @@ impl ColumnType<'_> {
             ColumnType::Native(n) => n.type_size_for_vector(),
             ColumnType::Tuple(_) => None,
             ColumnType::Collection { .. } => None,
+            // Nested vectors with large dimensions (a type is read off the wire) can describe
+            // a size that does not fit `usize`. No buffer holds such a value, so the saturated
+            // size makes every attempt to read an element fail cleanly.
             ColumnType::Vector { typ, dimensions } => typ
                 .type_size_for_vector()
-                .map(|size| size * usize::from(*dimensions)),
+                .map(|size| size.saturating_mul(usize::from(*dimensions))),
             ColumnType::UserDefinedType { .. } => None,
         }
     }
